@@ -46,14 +46,6 @@ void h_ctor_session(void) {
  * current_state and last_ts, so {constructor result with arbitrary (state, last_ts <= now)} is closed. */
 struct in_step { struct v_cfg cfg; uint8_t state; uint64_t last_ts; int input; };
 
-/* A2b: one step function call completes within the second in which it read the clock first (the first
- * read carries the arbitrary elapsed time; without this the timeout recursion of the step functions is
- * unbounded for a clock that jumps past the timeout between any two consecutive reads) */
-#define STEP_CLOCK_ASSUME() do { \
-    for (unsigned k_ = 0; k_ < V_NCLK; k_++) { \
-        if (k_ != g_led.clk_reads % V_NCLK) V_ASSUME(g_cfg.clk_adv_s[k_] == 0); \
-    } } while (0)
-
 void h_map_step(void) {
     V_INPUT(h_map_step, struct in_step, in);
     V_ENV(in.cfg);
@@ -68,9 +60,8 @@ void h_map_step(void) {
     V_ASSUME(in.input >= -128 && in.input <= 255);
     a->current_state = in.state;
     a->last_ts = in.last_ts;
-    STEP_CLOCK_ASSUME();
     V_POST("C14.init-establishes-pre: constructor result satisfies the step precondition", PRE_switch(a));
-    uint64_t elapsed = v_next_s(g_led.clk_reads, g_led.clk_s) - in.last_ts;
+    uint64_t elapsed = v_now_s() - in.last_ts;
     short tmo = a->states_table[in.state].timeout;
     automata *r = switch_state_mapping(a, in.input, (char *)0);
     V_POST("C14.step: successor state as the mapping state machine prescribes",
@@ -93,9 +84,8 @@ void h_sess_step(void) {
     V_ASSUME(in.input >= 0 && in.input <= 7);              /* the session-event alphabet */
     a->current_state = in.state;
     a->last_ts = in.last_ts;
-    STEP_CLOCK_ASSUME();
     V_POST("C15.init-establishes-pre: constructor result satisfies the step precondition", PRE_switch(a));
-    uint64_t elapsed = v_next_s(g_led.clk_reads, g_led.clk_s) - in.last_ts;
+    uint64_t elapsed = v_now_s() - in.last_ts;
     short tmo = a->states_table[in.state].timeout;
     automata *r = switch_state_session(a, in.input, (char *)0);
     V_POST("C15.step: successor state as the session life-cycle prescribes",
